@@ -1515,7 +1515,9 @@ func (s *TreeShapeListener) ExitParams(*parser.ParamsContext) {
 		type1 := s.typemap[fieldname]
 		switch t := type1.Type.(type) {
 		case *sysl.Type_Set:
-			t.Set.GetTypeRef().Context = nil
+			if ref := t.Set.GetTypeRef(); ref != nil {
+				ref.Context = nil
+			}
 			t.Set.SourceContext = nil //nolint:staticcheck
 			t.Set.SourceContexts = nil
 		case *sysl.Type_TypeRef:
